@@ -3,7 +3,8 @@
    Save/SaveProofs.v. *)
 From Coq Require Import List ZArith Bool.
 From Coq Require Import Permutation.
-From RtoscV Require Import Save.TopoModel Save.SaveModel Save.SaveProofs Save.RoundProofs Save.RoundFull Save.PermApp Save.SortStage.
+From RtoscV Require ArgVal.AvModel.
+From RtoscV Require Import Save.TopoModel Save.SaveModel Save.SaveProofs Save.RoundProofs Save.RoundFull Save.PermApp Save.SortStage Save.EqStage Save.SaveRegress.
 Import ListNotations.
 Local Open Scope Z_scope.
 
@@ -155,3 +156,51 @@ Theorem C12_roundtrip_nonvacuous :
   apply_all ex_app (map (the_line ex_app ex_state) [0%nat; 1%nat]) (initial ex_app) = (ex_state, true) /\
   apply_all ex_app (map (the_line ex_app ex_state) [1%nat; 0%nat]) (initial ex_app) = ([[VI 1]; [VI 7]], true).
 Proof. exact roundtrip_nonvacuous. Qed.
+
+(* The VALUE-EQUALITY stage instantiated: rtosc_arg_vals_eq's model (ArgVal/AvModel.vals_eq,
+   C16) on the arg-val slots of two stored values answers same_value - by
+   C16_eq_is_key_equality - whenever neither holds a NaN. *)
+Theorem C12_eq_stage : forall F u w, value_comparable u -> value_comparable w ->
+  AvModel.vals_eq F (enc_value u) (enc_value w) (Zlength (enc_value u)) (Zlength (enc_value w))
+    = Some (same_value u w) /\
+  av_eq_real F u w = same_value u w.
+Proof. exact eq_stage. Qed.
+
+(* The pipeline with the SORT and the VALUE-EQUALITY stages instantiated (av_eq is
+   av_eq_real: the C16 model on the encoded values).  Remaining stage hypotheses
+   [stage_hypotheses3]: C09 (walk), C10 (print/scan), C04+C14 (dispatch, callback).
+   In exchange the theorem asks what the C16 theorem asks: no NaN in the state and
+   in the defaults it selects ([comparable]). *)
+Theorem C12_roundtrip_pipeline_sorted_eq_partial :
+  forall text walk print_lines scan_text dispatch apropos fuel F a st ps,
+    stage_hypotheses3 text walk print_lines scan_text dispatch a st ->
+    full_conditions a st ->
+    comparable a st ->
+    declared a apropos ->
+    pushes line apropos fuel (msgs (save_lines a st)) = Some ps -> ranked ps ->
+    exists fin,
+      real_load text scan_text dispatch (fun _ ls => sort_by_load_order apropos fuel ls) a
+                (real_save text walk (av_eq_real F) print_lines a st) (initial a)
+      = Some (Z.of_nat (length (save_lines a st)), fin) /\
+      forall q, (q < length a)%nat -> p_nodef (port_at a q) = false -> live a st q = true ->
+                restored_val (port_at a q) (val_at st q) (val_at fin q).
+Proof. exact roundtrip_pipeline_sorted_eq. Qed.
+
+Theorem C12_eq_stage_nonvacuous :
+  comparable fx_app fx_state /\
+  forall F, av_eq_real F [VF 1065353216; VI 3] [VF 1065353216; VI 3] = true /\
+            av_eq_real F [VF 0] [VF 2147483648] = true /\
+            av_eq_real F [VI 1; VI 5; VI 1] [VI 1; VI 5; VI 2] = false.
+Proof. exact eq_stage_nonvacuous. Qed.
+
+(* The walker call for a switched-off "enabled by" port (port_is_enabled): the
+   name it is given is the enabling port's own name, in the parent-relative and
+   in the rSelf form (D30: fixed; the old arithmetic is in Save/SaveRegress.v). *)
+Theorem C12_enabling_port_walked_by_name : forall rel loc en, old_end rel loc en = Some en.
+Proof. exact old_end_is_the_port_name. Qed.
+
+Theorem C12_rself_walker_offset_before_fix_refuted :
+  (forall loc en, old_end_before_fix true loc en = Some en) /\
+  old_end_before_fix false [47; 113; 47] [108; 101; 118; 101; 108] = Some [101; 108] /\
+  old_end_before_fix false [47; 113; 47] [111; 110] = None.
+Proof. exact rself_walker_offset_before_fix_refuted. Qed.
